@@ -26,7 +26,7 @@ out.append("Independent sub-agents were given only the text of one property and 
            "passes without it) and then run against the checks (`lib/seed.py`; patch, demonstration and meta.json are under "
            "`/verif/seeded/<name>/`). The last column is the result of the *current* quick checks with the change applied: every "
            "change was first run against /repo itself (`git -C /repo apply`, `./check`, `git -C /repo checkout -- .`; rounds 1-2) "
-           "or against a scratch worktree with a copy of /verif built against it (`lib/seed_iso.py`; rounds 3-6); at the end "
+           "or against a scratch worktree with a copy of /verif built against it (`lib/seed_iso.py`; rounds 3-7); at the end "
            "of round 5 all 60 changes of rounds 1-5 were re-run in isolated copies against the checks of that moment.\n")
 out.append("| seeded change | property | what it does | what it needs to manifest | quick checks |")
 out.append("|---|---|---|---|---|")
@@ -72,6 +72,18 @@ out.append("Changes that the first version of a check **missed** and what was st
            "ends: such a definition among the templates of MC_Prog C10), C11-agent4 (a keyboard poll resets the print column: "
            "INKEY$ -- no key pressed -- entered the specification, the harness answers the poll, PRINT templates with a poll "
            "before TAB / zones / POS); "
+           "round 7 (*-agent4 of C01, C06, C08, C09, C12, C14, C16, C18): C01-agent4 (the linker relocates line number 0 like a "
+           "fragment-local label, so a branch to line 0 from inside an IF clause or after an earlier FOR / GOSUB / IF / WHILE resolves "
+           "to the wrong address: no program of MC_C01's grammar or of the random generator had a line 0 -- MC_C01's first line is now "
+           "line 0, so every GOTO / THEN / ON .. GOTO template that targets the first line exercises it, in C01 and in the checks that "
+           "reuse these sessions, C13, C16, C18); C16-agent4 (the adjacent spelling `=>` no longer collapses into >=: MC_C16's alias "
+           "variant wrote `= >` only -- a sixth variant with the remaining spellings `= <`, `=>`, `> <` was added while the change was "
+           "being confirmed, the recorded run is against the strengthened check); C18-agent4 (`Var::store` tests the limit after the "
+           "store: an assignment refused with OUT OF MEMORY has taken effect and the pool grows past 64K -- visible only with 65535 "
+           "live variables, which no check reached: a store of that size cannot be carried through TraceMachine, so the rule of "
+           "BasicMachine's store was abstracted into `PoolLimit` -- cardinality plus four named scalars, same test, same order --, "
+           "model-checked with Limit = 3 and bound to the code with the real limit by `PoolTrace`: 26 commands around the edge of the "
+           "pool, the probe's count of stored variables after each); "
            "C04-agent1 was caught only "
            "through an identity RENUM, where the specification demanded more than the property (see I.5) -- the specification "
            "was relaxed there and MC_C14 got a RENUM that moves earlier lines but not the last, a failing statement and a direct "
